@@ -75,9 +75,20 @@ func ChildMain(p *Prop, t Tier, seed uint64, lo, hi int, skip map[int]bool, outP
 	}
 	var curIdx int64 = -1
 	var started int64 // unix nano of the case start
+	memLimit := int64(6) << 30 // resident set; a case that needs more than this is treated like a hang
+	if s := os.Getenv("VERIF_CHILD_MEM_GB"); s != "" {
+		if n, err := strconv.Atoi(s); err == nil && n > 0 {
+			memLimit = int64(n) << 30
+		}
+	}
 	go func() {
 		for {
 			time.Sleep(200 * time.Millisecond)
+			if rss := residentBytes(); rss > memLimit {
+				write(ckpt{K: "M", I: int(atomic.LoadInt64(&curIdx))})
+				fmt.Fprintf(os.Stderr, "memory watchdog: resident set %d MiB exceeds the limit of %d MiB in case %d\n", rss>>20, memLimit>>20, atomic.LoadInt64(&curIdx))
+				os.Exit(4)
+			}
 			st := atomic.LoadInt64(&started)
 			if st == 0 {
 				continue
@@ -117,6 +128,20 @@ func ChildMain(p *Prop, t Tier, seed uint64, lo, hi int, skip map[int]bool, outP
 	flush(hi)
 	write(ckpt{K: "E"})
 	f.Close()
+}
+
+// residentBytes reads the resident set size from /proc/self/statm (cheap; no stop-the-world).
+func residentBytes() int64 {
+	b, err := os.ReadFile("/proc/self/statm")
+	if err != nil {
+		return 0
+	}
+	f := strings.Fields(string(b))
+	if len(f) < 2 {
+		return 0
+	}
+	pages, _ := strconv.ParseInt(f[1], 10, 64)
+	return pages * int64(os.Getpagesize())
 }
 
 type aggLite struct {
@@ -177,6 +202,7 @@ type childOutcome struct {
 	lastUpto  int  // cases < lastUpto are accounted for (or -1)
 	lastStart int  // last S idx seen (or -1)
 	hang      bool // H line present
+	mem       bool // M line present: memory watchdog fired
 	ended     bool // E line present
 }
 
@@ -204,6 +230,10 @@ func parseChildFile(path string, lo int) (*childOutcome, error) {
 			}
 		case "H":
 			o.hang = true
+			o.lastStart = k.I
+		case "M":
+			o.hang = true
+			o.mem = true
 			o.lastStart = k.I
 		case "E":
 			o.ended = true
